@@ -4,7 +4,8 @@
      aexp := V l | R i | F k aexp | D aexp
      sop  := W aexp z | C aexp aexp | A aexp aexp | P id n aexp*n
      op   := S sop | Z n | L aexp | K np (mode aexp)*np nb stmt*nb ret       mode := v | p | r | a | s
-     stmt := sop | K np (mode aexp)*np nb sop*nb ret      (a call made from inside a callee body)
+     stmt := sop | K np (mode aexp)*np nb stmt*nb ret     (a call made from inside a callee body; nests to any depth)
+           | L aexp                                   (T c = e; a local declared in the callee body)
      ret  := 0 | 1 aexp | 2 aexp aexp
    Output per case: two lines  "S <ok> l1|l2|..."  (aliasing semantics) and "M <ok> ..." (copy-in/write-through/
    copy-back for array parameters and self), each li a space-separated list of integers. *)
@@ -53,16 +54,23 @@ let p_ret () =
 let p_params () =
   let np = next_int () in
   times np (fun () -> let m = p_mode () in let a = p_aexp () in (m, a))
-(* a statement of a callee body: a simple statement, or (token K) a call made from inside the body *)
-let p_stmt () =
+(* a statement of a callee body: a simple statement, or (token K) a call made from inside the body, whose own body
+   is again a list of such statements (calls nest to any depth: recursion) *)
+let rec p_rstmt () =
   if !toks.(!pos) = "K" then begin
     ignore (next ());
     let ps = p_params () in
     let nb = next_int () in
-    let body = times nb p_sop in
+    let body = times nb p_rstmt in
     let ret = p_ret () in
-    TCall (ps, body, ret)
-  end else TS (p_sop ())
+    RCall (ps, body, ret)
+  end else if !toks.(!pos) = "L" then begin
+    ignore (next ());
+    RDecl (p_aexp ())                      (* T c = e; a local declared in the callee body *)
+  end else RS (p_sop ())
+let is_rs = function RS _ -> true | _ -> false
+let un_rs = function RS s -> s | _ -> assert false
+let flat_call = function RS _ -> true | RCall (_, body, _) -> List.for_all is_rs body | RDecl _ -> false
 let p_op () =
   match next () with
   | "S" -> OS (p_sop ())
@@ -71,12 +79,16 @@ let p_op () =
   | "K" ->
       let ps = p_params () in
       let nb = next_int () in
-      let body = times nb p_stmt in
+      let body = times nb p_rstmt in
       let ret = p_ret () in
-      (* a call-free body is the old construct OCall (theorem nested_calls_conservative: same semantics) *)
-      if List.for_all (function TS _ -> true | TCall _ -> false) body
-      then OCall (ps, List.map (function TS s -> s | TCall _ -> assert false) body, ret)
-      else OCall2 (ps, body, ret)
+      (* a call-free body is the construct OCall, one level of calls OCall2 (theorems nested_calls_conservative,
+         recursive_calls_conservative: same semantics as OCallR); deeper nesting is OCallR *)
+      if List.for_all is_rs body then OCall (ps, List.map un_rs body, ret)
+      else if List.for_all flat_call body
+      then OCall2 (ps, List.map (function RS s -> TS s
+                                        | RCall (ps', b', r') -> TCall (ps', List.map un_rs b', r')
+                                        | RDecl _ -> assert false) body, ret)
+      else OCallR (ps, body, ret)
   | t -> failwith ("op " ^ t)
 
 let show tag (out, ok) =
